@@ -5,8 +5,9 @@
 (* fed only by what was delivered to and what left the real node:          *)
 (*   dl   [index][kind][peer] -> blocks of the vote messages delivered     *)
 (*        with a VALID credential (the driver knows how it built them)     *)
-(*   dln  the same without the votes delivered while their index was still *)
-(*        in the node's future (only used for the discriminator)           *)
+(*   dln  the same without the CERTIFICATE votes delivered while their     *)
+(*        index was still in the node's future -- the handler does not     *)
+(*        cache those (only used for the discriminator)                    *)
 (*   ownv the node's own votes (decoded SendMessageEvents)                 *)
 (* Clauses, one per sentence of the statement:                             *)
 (*  PrecommitOnlyAfterPrevoteQuorum  "A validator precommits a block in a  *)
@@ -57,7 +58,7 @@ Step ==
       ELSE
       LET ok  == e.ev = "Recv" /\ e.cred = "ok" /\ e.k \in K3 /\ e.i \in 1..MaxIdx
           d   == IF ok THEN [dl EXCEPT ![e.i][e.k][e.s] = @ \cup {e.b}] ELSE dl
-          dn  == IF ok /\ e.i <= cur THEN [dln EXCEPT ![e.i][e.k][e.s] = @ \cup {e.b}] ELSE dln
+          dn  == IF ok /\ (e.i <= cur \/ e.k # "Cert") THEN [dln EXCEPT ![e.i][e.k][e.s] = @ \cup {e.b}] ELSE dln
           own == ownv \cup { <<x.i, x.k, x.b>> : x \in SetOf(e.sent) }
           pcs == { x \in SetOf(e.sent) : x.k = "Precommit" }
           cms == SetOf(e.commits)
